@@ -55,6 +55,55 @@ def confirm(sid):
         for f in glob.glob(f'/tmp/seedchk/{sid}*'):
             if os.path.isfile(f): os.remove(f)
     return res
+def related_props(sid):
+    """properties whose anchored files intersect the files the patch touches (plus the property itself)"""
+    import fnmatch
+    d = f'/verif/seeded/{sid}'
+    files = re.findall(r'^\+\+\+ b/(\S+)', open(f'{d}/patch.diff').read(), re.M)
+    out = [sid[:3]]
+    for l in open('/verif/properties.jsonl'):
+        p = json.loads(l)
+        pats = p['anchors'].get('files', [])
+        if p['id'] not in out and any(fnmatch.fnmatch(f, pat) for f in files for pat in pats):
+            out.append(p['id'])
+    return out
+def confirm_neutral(sid):
+    d = f'/verif/seeded/{sid}'
+    wt = f'/tmp/seedchk/{sid}'
+    os.makedirs('/tmp/seedchk', exist_ok=True)
+    sh(f'git -C /repo worktree remove --force {wt}')
+    sh(f'git -C /repo worktree add -q --detach {wt} HEAD')
+    res = {}
+    try:
+        demo, pkg = demo_pkg(d)
+        cands = {'diam': 'diam', 'diam_test': 'diam', 'sm': 'diam/sm', 'sm_test': 'diam/sm', 'datatype': 'diam/datatype', 'dict': 'diam/dict',
+                 'smparser': 'diam/sm/smparser', 'smpeer': 'diam/sm/smpeer', 'diamtest': 'diam/diamtest', 'avp': 'diam/avp'}
+        pdir = cands.get(pkg)
+        notes = open(os.path.join(d, 'notes.md')).read() if os.path.exists(os.path.join(d, 'notes.md')) else ''
+        m = re.search(r"-run '\^TestDemo\w+\$' \./([\w/]+)", notes)
+        if m: pdir = m.group(1).rstrip('/')
+        res['demo_pkg_dir'] = pdir
+        shutil.copy(demo, os.path.join(wt, pdir, os.path.basename(demo)))
+        test = f"go test -vet=off -count=1 -run '^TestDemo{sid[:3]}$' ./{pdir}"
+        rc0, out0 = sh(test, cwd=wt, timeout=600)
+        res['demo_without_change'] = 'pass' if rc0 == 0 else 'FAIL'
+        rc, out = sh(f'git apply {d}/patch.diff', cwd=wt)
+        res['patch_applies'] = rc == 0
+        if rc != 0:
+            res['apply_output'] = out[-500:]; return res
+        rc, out = sh('go build ./...', cwd=wt, timeout=600)
+        res['builds'] = rc == 0
+        rc1, out1 = sh(test, cwd=wt, timeout=600)
+        res['demo_with_change'] = 'pass' if rc1 == 0 else 'FAIL'
+        os.remove(os.path.join(wt, pdir, os.path.basename(demo)))
+        rc, out = sh(f'go test -mod=mod -json -vet=off -count=1 -timeout 25m ./... > /tmp/seedchk/{sid}.json 2>&1; python3 /verif/tools_baseline.py /tmp/seedchk/{sid}.json', cwd=wt, timeout=1800)
+        res['baseline'] = out.strip().splitlines()[0] if out.strip() else ''
+        res['baseline_ok'] = 'passing now: 140' in out
+    finally:
+        sh(f'git -C /repo worktree remove --force {wt}')
+        for f in glob.glob(f'/tmp/seedchk/{sid}*'):
+            if os.path.isfile(f): os.remove(f)
+    return res
 def run_checks(sid, tier, props):
     d = f'/verif/seeded/{sid}'
     out = {}
@@ -101,7 +150,10 @@ def results():
         m = json.load(open(mf))
         det = []
         for p, r in m.get('checks', {}).items():
-            det.append(f"{p} {r['tier']}: {'DETECTED' if r['detected'] else ('inconclusive' if r['exit']==2 else 'missed')} ({r['wall_s']} s)")
+            if m.get('kind') == 'neutral':
+                det.append(f"{p} {r['tier']}: {'FALSE ALARM' if r['detected'] else ('inconclusive' if r['exit']==2 else 'quiet')} ({r['wall_s']} s)")
+            else:
+                det.append(f"{p} {r['tier']}: {'DETECTED' if r['detected'] else ('inconclusive' if r['exit']==2 else 'missed')} ({r['wall_s']} s)")
         first = ''
         for p, r in m.get('checks', {}).items():
             for l in r['lines']:
@@ -124,6 +176,22 @@ if cmd == 'ingest':
     if not ok:
         json.dump(meta, open(os.path.join(d, 'meta.json'), 'w'), indent=1); print('NOT CONFIRMED'); sys.exit(1)
     meta['checks'] = run_checks_scratch(sid, tier, [sid[:3]]) if os.environ.get('SEED_SCRATCH') else run_checks(sid, tier, [sid[:3]])
+    json.dump(meta, open(os.path.join(d, 'meta.json'), 'w'), indent=1)
+    print(json.dumps(meta['checks'], indent=1))
+elif cmd == 'ingestn':
+    # a property-PRESERVING change: every related check must stay quiet
+    sid = sys.argv[2]; tier = sys.argv[3] if len(sys.argv) > 3 else 'quick'
+    src = os.environ.get('SEED_SRC', '/tmp/seedn') + f'/{sid[:3]}.out'
+    d = f'/verif/seeded/{sid}'
+    os.makedirs(d, exist_ok=True)
+    for f in os.listdir(src): shutil.copy(os.path.join(src, f), d)
+    conf = confirm_neutral(sid)
+    print(json.dumps(conf, indent=1)[:1500])
+    ok = conf.get('patch_applies') and conf.get('builds') and conf.get('baseline_ok') and conf.get('demo_with_change') == 'pass' and conf.get('demo_without_change') == 'pass'
+    meta = {'id': sid, 'kind': 'neutral', 'breaks': 'none (preserves ' + sid[:3] + ')', 'confirmed': bool(ok), 'confirmation': conf, 'what': '', 'needs': '', 'ran': ['tools_seeded.py ingestn ' + sid]}
+    if not ok:
+        json.dump(meta, open(os.path.join(d, 'meta.json'), 'w'), indent=1); print('NOT CONFIRMED'); sys.exit(1)
+    meta['checks'] = run_checks_scratch(sid, tier, related_props(sid))
     json.dump(meta, open(os.path.join(d, 'meta.json'), 'w'), indent=1)
     print(json.dumps(meta['checks'], indent=1))
 elif cmd == 'run':
